@@ -28,6 +28,12 @@ var props = []*core.Property{
 	prop("C03", "other", "structural necessary conditions of the first-match deepest-path walk", nil, ruleTreeWF),
 	prop("C02", "other", "x", nil, ruleNames, ruleTreeWF),
 	prop("C15", "other", "x", nil, ruleAliases),
-	prop("C07", "other", "x", nil, ruleTextNode),
-	prop("C10", "other", "x", nil, ruleJSONNodes),
+	prop("C07", "other", "x", nil, ruleTextNode, ruleTextPredicate, ruleTextShape, ruleBOMTable),
+	prop("C11", "other", "x", nil, ruleBOMTable, rulePlainReturns, ruleASCIIClass, ruleTrim, ruleLatin),
+	prop("C10", "other", "x", nil, ruleJSONNodes, ruleStackBalance),
+	prop("C08", "other", "x", nil, ruleFailProp),
+	prop("C13", "other", "x", nil, ruleInspectedGuard),
+	prop("C12", "other", "x", nil, ruleSnifferMap, ruleDecoderTypestate, ruleLowerCase, ruleHTMLOrder),
+	prop("C06", "other", "x", nil, ruleAtomics, ruleLockset, ruleWriteOnce, ruleSharedAppend, rulePkgState, ruleSnapshot, ruleFreshResults),
+	prop("C16", "other", "x", nil, ruleCap),
 }
